@@ -707,6 +707,26 @@ pub fn gen_c09(out: &mut Out, rng: &mut Rng, thorough: bool) {
                 hex_raw(&reply)
             ),
         );
+        // the typed write methods around the limit (the quantity the method is given, not a
+        // ready-made request)
+        if i < 24 {
+            let a = rng.u16();
+            let op = match i / 2 {
+                0 => crate::run::TypedOp::Wmc(a, rng.bits(1968)),
+                1 => crate::run::TypedOp::Wmc(a, rng.bits(1969)),
+                2 => crate::run::TypedOp::Wmc(a, rng.bits(1976)),
+                3 => crate::run::TypedOp::Wmc(a, rng.bits(1977)),
+                4 => crate::run::TypedOp::Wmc(a, rng.bits(2000)),
+                5 => crate::run::TypedOp::Wmr(a, rng.words(123)),
+                6 => crate::run::TypedOp::Wmr(a, rng.words(124)),
+                7 => crate::run::TypedOp::Rwm(a, 1, a, rng.words(121)),
+                8 => crate::run::TypedOp::Rwm(a, 1, a, rng.words(122)),
+                9 => crate::run::TypedOp::Wmc(a, rng.bits(1)),
+                10 => crate::run::TypedOp::Wmr(a, rng.words(1)),
+                _ => crate::run::TypedOp::Rwm(a, 125, a, rng.words(1)),
+            };
+            monitor_line(out, &format!("cli {kind} {} | typed {}", hex8(slave), op.tok()));
+        }
         // server side
         let big = match rng.below(3) {
             0 => Response::ReadHoldingRegisters(rng.words_in(126, 300)),
@@ -763,6 +783,21 @@ pub fn mon_c09(out: &mut Out, l: &str, r: &str) {
                 Err(e) => Some(vec![e.function.value() | 0x80, e.exception.into()]),
             };
             judge(out, pdu, &|p| spec::rtu_frame(u, p));
+        }
+        ["cli", kind, unit, "|", "typed", top, ..] => {
+            // a typed write at / around the limit: up to 253 bytes it goes out intact, beyond it is
+            // refused with InvalidInput and nothing is written
+            let Some(op) = crate::run::TypedOp::parse(top) else { return };
+            let Some(pdu) = spec::request_bytes(&op.request()) else { return };
+            let u = p_u8(unit).unwrap_or(0);
+            let got = parts(r)[0];
+            if pdu.len() > 253 {
+                out.check(got == "tr:ii w=- sd=0", || format!("oversized typed call: expected InvalidInput and no write, got `{}`", trunc(got)), l);
+            } else {
+                let f = if *kind == "tcp" { spec::mbap(0, u, &pdu) } else { spec::rtu_frame(u, &pdu) };
+                let want = format!(" w={} ", hex(&f));
+                out.check(got.contains(&want), || format!("typed request of {} bytes was not transmitted intact: `{}`", pdu.len(), trunc(got)), l);
+            }
         }
         ["cli", ..] => {
             let ps = parts(r);
